@@ -8,7 +8,7 @@ PROPS['C08'] = dict(
     rule='distinct = distinct (target class, pre-history kind, forward/backward, loop flag, track count class) with >= 3 events compared after the seek',
     floor=12,
     assumptions=['channel state compared: program, bank MSB/LSB, volume, expression, pan, bend, bend range, sustain/soft pedal, RPN/NRPN selection'],
-    stages=[dict(name='seek', variant='asan', harness='c08_seek.cpp', quick=3000, thorough=60000),
+    stages=[dict(name='seek', variant='asan', harness='c08_seek.cpp', quick=8000, thorough=160000),
             dict(name='memcheck', variant='plain-d', harness='c08_seek.cpp', quick=1000, thorough=20000, budget=150, wall=2400, **{'as': 'seek'},
                  wrapper=['valgrind', '-q', '--error-exitcode=79', '--exit-on-first-error=yes', '--track-origins=no', '--leak-check=no'])],
 )
